@@ -671,6 +671,13 @@ class CallMixin:
     def b_sum(self, st, args):
         return self.prim(st, 'sum', list(args.pos))
 
+    def b_any(self, st, args):
+        # any / all of an iterable: an opaque primitive of the (boxed) argument -- enough for relational proofs where both sides build the same list
+        return self.prim(st, 'any', list(args.pos))
+
+    def b_all(self, st, args):
+        return self.prim(st, 'all', list(args.pos))
+
     def b_max(self, st, args):
         if len(args.pos) == 2 and all(a.k == 'int' for a in args.pos):
             a, b = args.pos
